@@ -96,12 +96,29 @@ type parseCase struct {
 	// Tail: adversarial bytes placed in the spare capacity behind Data (e.g. the rest of the frame Data was cut from)
 	Tail spec.Hex `json:"tail,omitempty"`
 	Src  string   `json:"src,omitempty"`
+	// PrevEntry/Prev: another parse call made between two calls with Data: the result for Data must not depend on what was parsed
+	// before (no state carried between calls, e.g. through shared error values)
+	PrevEntry string   `json:"prev_entry,omitempty"`
+	Prev      spec.Hex `json:"prev,omitempty"`
 }
 
 type outcome struct {
 	panicked interface{}
 	val      interface{}
 	err      error
+	// errRepr is taken when the call returns (the error value may be shared and change later)
+	errRepr string
+}
+
+func reprOf(err error) string {
+	if err == nil {
+		return "<nil>"
+	}
+	s := fmt.Sprintf("%T:%s", err, err.Error())
+	if b, ok := err.(interface{ Bytes() []byte }); ok {
+		s += fmt.Sprintf("|%x", b.Bytes())
+	}
+	return s
 }
 
 func call(e *entry, buf []byte) (o outcome) {
@@ -111,6 +128,10 @@ func call(e *entry, buf []byte) (o outcome) {
 		}
 	}()
 	o.val, o.err = e.Fn(buf)
+	o.errRepr = reprOf(o.err)
+	if ev, ok := o.val.(error); ok && o.err == nil {
+		o.errRepr = "value:" + reprOf(ev)
+	}
 	return
 }
 
@@ -122,7 +143,7 @@ func errText(err error) string {
 }
 
 func same(a, b outcome) bool {
-	if errText(a.err) != errText(b.err) {
+	if errText(a.err) != errText(b.err) || a.errRepr != b.errRepr {
 		return false
 	}
 	if cat.IsNilValue(a.val) != cat.IsNilValue(b.val) {
@@ -176,6 +197,22 @@ func runParse(c parseCase) harness.Result {
 		}
 		if o2.err != nil && e.NilOnError && !cat.IsNilValue(o2.val) {
 			return harness.Fail("%s returned error %q together with a non-nil value %+v", e.Name, o2.err, o2.val)
+		}
+	}
+	if pe := entryByName[c.PrevEntry]; pe != nil {
+		prev := append([]byte(nil), c.Prev...)
+		if op := call(pe, prev); op.panicked != nil {
+			return harness.Fail("%s panicked on %d-byte input %x: %v", pe.Name, len(prev), prev, op.panicked)
+		}
+		if now := reprOf(o1.err); o1.err != nil && now != o1.errRepr[len(o1.errRepr)-len(now):] && "value:"+now != o1.errRepr && now != o1.errRepr {
+			return harness.Fail("%s on input %x returned the error %s; after %s parsed %x the same error value reads %s: results are not independent values", e.Name, []byte(c.Data), o1.errRepr, pe.Name, prev, now)
+		}
+		o3 := call(e, append([]byte(nil), c.Data...))
+		if o3.panicked != nil {
+			return harness.Fail("%s panicked on input %x (second call): %v", e.Name, []byte(c.Data), o3.panicked)
+		}
+		if !same(o1, o3) {
+			return harness.Fail("%s on input %x gives (%+v, %s) but, after %s has parsed %x, (%+v, %s): the result depends on an earlier call", e.Name, []byte(c.Data), o1.val, o1.errRepr, pe.Name, prev, o3.val, o3.errRepr)
 		}
 	}
 	nt := o1.err == nil || !(strings.Contains(o1.err.Error(), "too short") || strings.Contains(o1.err.Error(), "to short"))
@@ -236,7 +273,21 @@ func fixCRC(f spec.Framing, d []byte) {
 
 func genParse(t *rapid.T) parseCase {
 	e := &entries[rapid.IntRange(0, len(entries)-1).Draw(t, "entry")]
-	return genFor(t, e)
+	c := genFor(t, e)
+	if rapid.IntRange(0, 3).Draw(t, "with_prev") == 0 {
+		pe := &entries[rapid.IntRange(0, len(entries)-1).Draw(t, "prev_entry")]
+		if rapid.Bool().Draw(t, "prev_same_family") {
+			pe = e
+			if e.Framing == spec.TCP && rapid.Bool().Draw(t, "prev_dispatcher") {
+				pe = entryByName[rapid.SampledFrom([]string{"ParseTCPRequest", "ParseTCPResponse", "LooksLikeModbusTCP(false)", "ParseMBAPHeader"}).Draw(t, "prev_name")]
+			}
+		}
+		if pe != nil {
+			p := genFor(t, pe)
+			c.PrevEntry, c.Prev = pe.Name, p.Data
+		}
+	}
+	return c
 }
 
 func genFor(t *rapid.T, e *entry) parseCase {
